@@ -333,9 +333,9 @@ fn relevant(prop: &str, oracle: &str, o: &Outcome) -> bool {
         "C01" => oracle == "too-many-live-objects",
         // capacity lost / a slot kept by a call that timed out; get() never panics
         "C02" => matches!(oracle, "slot-not-released" | "panic"),
-        "C03" => matches!(oracle, "slot-not-released" | "object-fate-mismatch"),
+        "C03" => matches!(oracle, "slot-not-released" | "object-fate-mismatch" | "destroyed-without-single-detach"),
         // rejected (timed-out) objects are discarded and never handed out; documented errors only
-        "C04" => matches!(oracle, "object-fate-mismatch" | "undocumented-error") || (oracle == "timing-model-mismatch" && o.other_object),
+        "C04" => matches!(oracle, "object-fate-mismatch" | "undocumented-error" | "destroyed-without-single-detach") || (oracle == "timing-model-mismatch" && o.other_object),
         // waiters and later callers get Closed, the closed pool keeps nothing
         "C06" => (oracle == "timing-model-mismatch" && closed_involved) || (oracle == "object-fate-mismatch" && o.closed),
         // unmanaged: never a panic, Closed after close()
@@ -974,6 +974,24 @@ async fn run_managed_body(case: &Case, world: Arc<World>, out: &mut Outcome) {
     }
     macro_rules! compare {
         ($at:expr) => {{
+            // model-free first: whatever the timing, an object the live pool lets go of is detached
+            // exactly once, and never more than max_size objects are alive
+            {
+                let (wd0, wdet0) = {
+                    let w = world.w();
+                    (w.destroyed.clone(), w.detached.clone())
+                };
+                for (id, d) in wd0.iter().enumerate() {
+                    if *d && wdet0[id] != 1 {
+                        let det = wdet0[id];
+                        fail!("destroyed-without-single-detach", "{} (clock {} ms): object {} was destroyed with {} detach calls", $at, model.now, id, det);
+                    }
+                }
+                let live = wd0.iter().filter(|d| !**d).count();
+                if live > max {
+                    fail!("too-many-live-objects", "{} (clock {} ms): {} objects are alive, max_size is {}", $at, model.now, live, max);
+                }
+            }
             if model.unspecified.is_some() {
                 out.labels.push("unspecified-situation".into());
                 return;
